@@ -104,9 +104,11 @@ def run_one(prefix):
     except Exception as e:
         res['outcome'] = 'engine-error'
         res['detail'] = '%s: %s @ %s\n%s' % (type(e).__name__, e, getattr(e, '_where', ''), traceback.format_exc()[-1500:])
+    res['prefix'] = list(ctx.trace)
     res['steps'] = ctx.steps; res['branches'] = len(ctx.trace); res['queries'] = ctx.queries
     res['solver_s'] = round(ctx.solver_s, 4); res['wall_s'] = round(time.time() - t0, 4)
     res['called'] = None
+    if ctx.fork_log is not None: res['forks'] = ctx.fork_log
     return res, ctx.pending
 
 def _task(prefixes, max_paths, max_secs):
